@@ -64,3 +64,5 @@ func literalNrSweeps(r *compileRun) {
 }
 
 func mustNum(a *refsem.Arch, n string) uint32 { v, _ := a.Number(n); return v }
+
+func refsemArch(n string) *refsem.Arch { return refsem.ArchByName(n) }
